@@ -91,6 +91,48 @@ def _result_branches(tree: ast.AST, notes: list[str]) -> tuple[list[str], list[s
         nxt = node.orelse
         node = nxt[0] if len(nxt) == 1 and isinstance(nxt[0], ast.If) else None
     return order, readmit
+_LIST_MUTATORS = ("append", "extend", "insert", "pop", "remove", "clear", "sort", "reverse")
+
+
+def _is_wakeups(n: ast.AST) -> bool:
+    return isinstance(n, ast.Attribute) and n.attr == "scheduled_wakeups"
+
+
+def _wakeup_heap_shape(tree: ast.AST) -> list[str]:
+    """how `scheduled_wakeups` is changed anywhere in control_loop.py (the code reads element 0 as the earliest entry, which
+    holds as long as the list is only ever changed through heapq).  Mutators are written `<how>@<function>`: `heapq.<fn>` for a heapq call on the list, `assign` / `augassign` / `del` /
+    `setitem` for statements, `.<method>` for a mutating list method.  The initial `= []` in `__init__` is not a mutation."""
+    muts: set[str] = set()
+    for fn in ast.walk(tree):
+        if not isinstance(fn, (ast.FunctionDef, ast.AsyncFunctionDef)):
+            continue
+        for n in ast.walk(fn):
+            if isinstance(n, (ast.Assign, ast.AnnAssign)):
+                tgts = n.targets if isinstance(n, ast.Assign) else [n.target]
+                for t in tgts:
+                    for tt in ([t] if not isinstance(t, (ast.Tuple, ast.List)) else list(t.elts)):
+                        if _is_wakeups(tt):
+                            empty = isinstance(n.value, ast.List) and not n.value.elts
+                            if not (fn.name == "__init__" and empty):
+                                muts.add(f"assign@{fn.name}")
+                        if isinstance(tt, ast.Subscript) and _is_wakeups(tt.value):
+                            muts.add(f"setitem@{fn.name}")
+            elif isinstance(n, ast.AugAssign) and (_is_wakeups(n.target) or (isinstance(n.target, ast.Subscript) and _is_wakeups(n.target.value))):
+                muts.add(f"augassign@{fn.name}")
+            elif isinstance(n, ast.Delete):
+                for t in n.targets:
+                    if _is_wakeups(t) or (isinstance(t, ast.Subscript) and _is_wakeups(t.value)):
+                        muts.add(f"del@{fn.name}")
+            elif isinstance(n, ast.Call):
+                f = n.func
+                if isinstance(f, ast.Attribute) and _is_wakeups(f.value) and f.attr in _LIST_MUTATORS:
+                    muts.add(f".{f.attr}@{fn.name}")
+                elif (isinstance(f, ast.Attribute) and isinstance(f.value, ast.Name) and f.value.id == "heapq"
+                      and n.args and _is_wakeups(n.args[0])):
+                    muts.add(f"heapq.{f.attr}@{fn.name}")
+                elif isinstance(f, ast.Name) and f.id.startswith("heap") and n.args and _is_wakeups(n.args[0]):
+                    muts.add(f"heapq.{f.id}@{fn.name}")  # `from heapq import heappush`
+    return sorted(muts)
 
 
 def generate(notes: list[str]) -> list[str]:
@@ -105,6 +147,7 @@ def generate(notes: list[str]) -> list[str]:
     unknown_tick_raises = False
     result_order: list[str] = ["<unparsed>"]
     result_readmit: list[str] = ["<unparsed>"]
+    wake_muts: list[str] = ["<unparsed>"]
     try:
         tree = ast.parse(open(repo_path(BASE + "control_loop.py")).read())
         result_order, result_readmit = _result_branches(tree, notes)
@@ -116,6 +159,9 @@ def generate(notes: list[str]) -> list[str]:
             src = ast.unparse(red)
             idle_after = "if _check_idle_state(state):\n        commands.append(CommandScheduleIdleCheck())" in src
             unknown_tick_raises = "Unknown tick type" in src
+        wake_muts = _wakeup_heap_shape(tree)
+        if not wake_muts:
+            notes.append("engine_shape: nothing changes scheduled_wakeups")
         pc = next((n for n in ast.walk(tree) if isinstance(n, ast.AsyncFunctionDef) and n.name == "process_command"), None)
         if pc is None:
             notes.append("engine_shape: process_command not found")
@@ -143,5 +189,7 @@ def generate(notes: list[str]) -> list[str]:
         f"def resultDispatch : List String := {lst(result_order)}",
         "/-- result branches that re-admit the running invocation or take it out of `in_progress` themselves -/",
         f"def resultBranchesReadmitting : List String := {lst(result_readmit)}",
+        "/-- every way `scheduled_wakeups` (the runner's timer heap) is changed in control_loop.py, as `<how>@<function>` -/",
+        f"def wakeupMutators : List String := {lst(wake_muts)}",
         "end GenEngineShape",
     ]
